@@ -106,6 +106,9 @@ def run_case(ck, desc):
     names = ("rho_o0", "rho_g0", "rho_w0")
     p = np.array(desc["p"])
     So = np.array(desc["So_frac"]) * (1 - Sw)
+    # two of the six states sit just below the bubble point: a small but real free-gas saturation
+    So[1] = (1 - Sw) - 10.0 ** (-3.2 - 2 * desc["So_frac"][1])
+    So[4] = (1 - Sw) - 10.0 ** (-3.05 - 0.5 * desc["So_frac"][4])
 
     if desc["kind"] == "callables":
         fam = desc["family"]
